@@ -144,6 +144,15 @@ def BOUNDED(tier, seed):
             fail('river_output', f'RiverWrapper on prediction {xin["v"]!r}: {got}, expected {exp}')
     if rw([{'v': 1}, {'v': 2}]) != [{'output': 1.0}, {'output': 2.0}]:
         fail('river_output', 'RiverWrapper batch path')
+    # a batch of string labels = the one-at-a-time calls in order (each row one-hot over the labels seen SO FAR)
+    labels = ['low', 'mid', 'low', 'high', 'mid']
+    evals += 1
+    distinct.add(('river_batch_labels',))
+    one_by_one = RiverWrapper(lambda x: x['v'])
+    exp_rows = [one_by_one({'v': l}) for l in labels]
+    got_rows = RiverWrapper(lambda x: x['v'])([{'v': l} for l in labels])
+    if got_rows != exp_rows:
+        fail('river_output', f'RiverWrapper on a batch of labels {labels}: {got_rows}, one-at-a-time calls give {exp_rows}')
     # 5. validate_model_function dispatch
     from sklearn.linear_model import LinearRegression
     from sklearn.tree import DecisionTreeClassifier
